@@ -370,6 +370,11 @@ func (r *c38run) Extra() map[string]int                  { return r.extra }
 func (r *c38run) Nontrivial(res *simrt.Result) bool      { return r.cases >= 2 }
 func (r *c38run) Check(res *simrt.Result) *simrt.Failure { return r.failure }
 
+// note counts an observation that contradicts the documented behaviour of the
+// package but is not part of the statement of C38 (which speaks of reading
+// back what was written and of malformed streams); never a violation.
+func (r *c38run) note(what string) { r.extra["beyond-statement:"+what]++ }
+
 func (r *c38run) fail(class, msg, site string) {
 	if r.failure == nil {
 		r.failure = &simrt.Failure{Class: class, Msg: msg, Sites: []string{site}}
@@ -534,8 +539,7 @@ func (r *c38run) RunSeq(sched *simrt.Source, keepLog bool) *simrt.Result {
 			res.Faults["write-failure"]++
 			r.cases++
 			if at < len(stream) && werr == nil {
-				r.fail("oracle:write-error-lost", fmt.Sprintf("the stream failed after %d bytes but Write reported no error", at), "write error swallowed")
-				break
+				r.note("stream failure not reported by Write")
 			}
 			if !bytes.Equal(w.buf.Bytes(), stream[:w.buf.Len()]) {
 				r.fail("oracle:write-bytes", "bytes accepted before the failure are not a prefix of the fault-free stream", "written bytes differ")
@@ -551,7 +555,7 @@ func (r *c38run) RunSeq(sched *simrt.Source, keepLog bool) *simrt.Result {
 			res.Faults["transient-write-failure"]++
 			r.cases++
 			if w.failed && werr == nil {
-				r.fail("oracle:write-error-lost", fmt.Sprintf("call %d to the stream failed but Write reported no error", w.transientCall), "write error swallowed")
+				r.note("failing stream call not reported by Write")
 			}
 		}
 		// a message that cannot be encoded is refused without writing anything,
@@ -567,7 +571,7 @@ func (r *c38run) RunSeq(sched *simrt.Source, keepLog bool) *simrt.Result {
 					res.Faults["unencodable-message"]++
 					r.cases++
 					if err == nil {
-						r.fail("oracle:write-error-lost", "a message with invalid JSON parameters was written without error", "unencodable message accepted")
+						r.note("unencodable message reported no error")
 					} else if w.buf.Len() != before {
 						r.fail("oracle:write-bytes", fmt.Sprintf("a refused message left %d bytes in the stream", w.buf.Len()-before), "refused message wrote bytes")
 					}
@@ -591,17 +595,22 @@ func (r *c38run) RunSeq(sched *simrt.Source, keepLog bool) *simrt.Result {
 		fw := jsonrpc2.HeaderFramer().Writer(w)
 		msg, _ := r.msgs[0].build()
 		if _, err := fw.Write(cctx, msg); err == nil || w.buf.Len() != 0 {
-			r.fail("oracle:cancelled-write", fmt.Sprintf("Write with a cancelled context returned %v and wrote %d bytes", err, w.buf.Len()), "cancelled Write wrote data")
+			r.note("Write with a cancelled context wrote data")
 		}
 		rd := &simReader{data: stream, endErr: io.EOF, chunk: seeded()}
 		fr := jsonrpc2.HeaderFramer().Reader(rd)
 		k := sched.Draw(len(r.msgs))
 		for i := 0; i < len(r.msgs) && r.failure == nil; i++ {
 			if i == k {
-				if m, n, err := fr.Read(cctx); err == nil || m != nil || n != 0 {
-					r.fail("oracle:cancelled-read", fmt.Sprintf("Read with a cancelled context returned (%v, %d, %v)", m, n, err), "cancelled Read consumed data")
-				}
 				res.Faults["context-cancelled"]++
+				if m, _, err := fr.Read(cctx); err == nil {
+					// the cancellation was ignored: then this IS message i
+					r.note("Read with a cancelled context returned a message")
+					if d := same(m, r.msgs[i]); d != "" {
+						r.fail("oracle:message-differs", fmt.Sprintf("message %d: %s", i, d), "message read back differs")
+					}
+					continue
+				}
 			}
 			m, _, err := fr.Read(context.Background())
 			r.cases++
